@@ -5,8 +5,9 @@ Correspondence: harness/matrix.c (+ white-box matrix_wb.c for the static helpers
 on every public integer pixman_transform_* entry point; each request runs in a forked child so that an
 abort() is an observable.  Spec oracle: exact __int128 arithmetic inside the harness (nearest rounding,
 FALSE iff unrepresentable, bounds contain corners, A x inv(A) ~ I, ...), independent of the model.
-The floating point family (f_*) is oracle-only; pixman_transform_invert is additionally mirrored on Lean Float
-(bit-exact correspondence, no theorem): level "partial" for those."""
+The floating point family is modelled over exact rationals (Model/MatrixQ.lean, Props/C11Float.lean, `_partial`: IEEE rounding not
+modelled): pixman_transform_invert is tied three ways (rational model = exact oracle literally; library within the double rounding
+bound of the exact inverse; bit-exact Lean Float mirror); the other f_* entry points are judged by the long double oracle."""
 import collections, json, re, subprocess
 from concurrent.futures import ThreadPoolExecutor
 from engine.core import log, sh, VERIF, REPO
@@ -33,7 +34,9 @@ REQUIRED = [
     "Pixman.Props.C11.transformPoint3116_projective_exact",
     "Pixman.Props.C11.transformPoint_exact",
     "Pixman.Props.C11.transformPoint3116_projective_reduced",
-    "Pixman.Props.C11.transformPoint_within_one_partial",
+    "Pixman.Props.C11.transformPoint_reduced_sharp",
+    "Pixman.Props.C11.transformPoint_within_one",
+    "Pixman.Props.C11.transformPoint_w_zero",
     "Pixman.Props.C11.applyPair_spec",
     "Pixman.Props.C11.applyPair_exact",
     "Pixman.Props.C11.translate_spec",
@@ -42,7 +45,17 @@ REQUIRED = [
     "Pixman.Props.C11.scale_spec",
 ]
 
+# the floating point entry points over exact rationals (Model/MatrixQ.lean); every one is `_partial`: IEEE rounding is not modelled
+REQUIRED_FLOAT = ["Pixman.Props.C11Float." + t for t in (
+    "det_eq_detSpec_partial", "fInvert_none_iff_partial", "fInvert_inverse_partial", "fInvert_unique_partial",
+    "fMultiply_eq_mulSpec_partial", "entryToFixed_none_iff_partial", "entryToFixed_some_partial",
+    "toFixed_isSome_iff_partial", "toFixed_some_partial", "detSpec_fromFixed_partial", "detSpec_fromFixed_zero_iff_partial",
+    "invert_singular_partial", "invert_some_partial", "invert_none_iff_partial",
+    "fPoint3d_spec_partial", "fPoint_none_iff_partial", "fPoint_some_partial", "fBounds_contains_corners_partial",
+)]
+
 FLOAT_OPS = ("f_from", "f_to", "f_invert", "f_point", "f_bounds")   # oracle only; "invert" is also mirrored bit-exactly on Lean Float
+FLOAT_RATIONAL = ("f_invert", "f_point", "f_bounds")   # rational model compared literally with the harness's exact arithmetic; library judged by the oracle
 MODELLED_NONTRIVIAL = ("point", "p31", "point3d", "p313d", "p31a", "mul", "scale", "rotate", "translate", "bounds")
 WB_SYMS = ["wb_udiv", "wb_sdiv", "wb_to128", "wb_finv"]
 
@@ -103,6 +116,7 @@ def run_streams(ctx, nper, nstreams):
     nontrivial = set()
     samples = []
     findings = []      # (kind, op, request, impl, model, text)
+    observations = []  # counted, not judged (see assumptions)
     total = compared = 0
     for ops, impl, orc, model in results:
         with open(ops) as f:
@@ -123,10 +137,32 @@ def run_streams(ctx, nper, nstreams):
                 continue
             op = req.split(" ", 1)[0]
             ops_hist[op] += 1
+            if op in FLOAT_RATIONAL:
+                # "<library (doubles / box)> | <exact-arithmetic verdict of the harness>"  vs  the Lean rational model, literally
+                aq = li[k].strip().partition(" | ")[2]
+                mq = lm[k].strip()
+                if aq != mq:
+                    findings.append(("disagree", op, req, aq, mq, f"rational model (Model/MatrixQ.lean) and the exact-arithmetic oracle differ [{op}, rational]"))
+                else:
+                    stats[f"{op}: rational model = exact oracle"] += 1
+                    if not aq.startswith("0") and "; 0" not in aq:
+                        nontrivial.add(hash("q" + req))
+                compared += 1
+                continue
             if op in FLOAT_OPS:
                 continue
             compared += 1
             a, m = li[k].strip(), lm[k].strip()
+            if op == "invert":
+                # "<library> | <exact-arithmetic verdict of the harness>"  vs  "<Lean Float mirror> | <Lean rational model>"
+                a, _, aq = a.partition(" | ")
+                m, _, mq = m.partition(" | ")
+                if aq != mq:
+                    findings.append(("disagree", op, req, aq, mq, "rational model (Model/MatrixQ.lean) and the exact-arithmetic oracle differ [invert, rational]"))
+                else:
+                    stats["invert: rational model = exact oracle (" + ("TRUE" if aq.startswith("1") else "FALSE, singular" if aq == "0 S" else "FALSE, overflow") + ")"] += 1
+                    if aq.startswith("1"):
+                        nontrivial.add(hash("q" + req))
             if m == "UNDEF":        # a NaN reached a double->int cast (undefined in C): not compared
                 stats["invert: NaN reached the cast (not compared)"] += 1
                 continue
@@ -151,6 +187,12 @@ def run_streams(ctx, nper, nstreams):
                 mm = re.match(r"STAT (\d+) (.*)", ol)
                 if mm:
                     stats[mm.group(2)] += int(mm.group(1))
+                    continue
+                mm = re.match(r"OBSERVE (\d+) (.*)", ol)
+                if mm:
+                    ln = int(mm.group(1))
+                    if len(observations) < 6 and 0 < ln <= n:
+                        observations.append({"request": lo[ln - 1], "implementation": li[ln - 1].strip() if ln <= len(li) else None, "what": mm.group(2)})
     ctx.cov["evaluations"] += total
     ctx.cov["distinct_nontrivial"] += len(nontrivial)
     ctx.cov["traces_validated_against_impl"] += compared
@@ -163,7 +205,11 @@ def run_streams(ctx, nper, nstreams):
     ctx.cov["samples"] = samples
     ctx.extra["operation_histogram"] = dict(ops_hist)
     ctx.extra["harness_statistics"] = dict(stats)
-    ctx.extra["float_family_requests(oracle only, not modelled)"] = sum(ops_hist[o] for o in FLOAT_OPS)
+    ctx.extra["observations(counted, not judged)"] = observations
+    for o in observations[:2]:
+        log(f"OBSERVATION (not judged): {o['what']}: {o['request']}  =>  {o['implementation']}")
+    ctx.extra["float_family_requests(oracle only: f_from, f_to)"] = sum(ops_hist[o] for o in FLOAT_OPS if o not in FLOAT_RATIONAL)
+    ctx.extra["float_family_requests(rational model = exact oracle; library within rounding bound)"] = sum(ops_hist[o] for o in FLOAT_RATIONAL + ("invert",))
     return findings
 
 
@@ -188,7 +234,7 @@ def report(ctx, findings, limit=8):
 
 
 def run(ctx):
-    broken = ctx.lean_obligations("Pixman.Props.C11", REQUIRED)
+    broken = ctx.lean_obligations("Pixman.Props.C11", REQUIRED + REQUIRED_FLOAT, extra_modules=["Pixman.Props.C11Float"])
     quick = ctx.tier == "quick"
     findings = run_streams(ctx, 60000 if quick else 400000, 16 if quick else 48)
     report(ctx, findings)
@@ -200,8 +246,18 @@ def run(ctx):
         "scale: the reciprocal 2^32/s may be any 16.16 value within one unit of the exact one (the code truncates); a reciprocal outside int32 must give FALSE",
         "point: ties may go either way (affine branch rounds half up, projective branch half away from zero)",
         "bounds: containment is judged to the 16.16 resolution of the transformed corner",
-        "float family (invert, f_transform_*, conversions): no theorem (partial); invert is mirrored operation by operation on Lean Float (bit-exact correspondence) and judged by the oracle, the f_* entry points are oracle only; invert is judged on entries <= 4.0 "
-        "(exact double arithmetic) for singular input and on matrices whose exact inverse stays below 30000.0 for accuracy; NaN/inf inputs are not generated",
+        "float family: modelled over exact rationals (Model/MatrixQ.lean; theorems Props/C11Float.lean, all `_partial`: IEEE-754 rounding of the "
+        "individual double operations is not modelled).  pixman_transform_invert: (a) the rational model must reproduce literally the verdict of the harness's "
+        "exact __int128 arithmetic (singular / overflow / the nine nearest 16.16 values); (b) the library must agree with the exact inverse within the a-posteriori "
+        "bound of its own rounding errors, u = 2^-53: |det_fl - det| <= 6u*SD = kappa*|det| (SD = sum |m_i0|(|m m|+|m m|)), judged when kappa < 1/4, entry error "
+        "E_k = (4/3)(4.1u*SC_k + kappa*|c_k|)*2^32/|det| + 2^-21 units (SC_k = |m m|+|m m| of the cofactor c_k): TRUE required when every |x_k| <= 32767.0 - E_k, FALSE "
+        "required when some |x_k| > 32767.0 + E_k, a TRUE result must lie in [floor(x_k - E_k + 1/2), floor(x_k + E_k + 1/2)]; (c) bit-exact mirror on Lean Float (no theorem). "
+        "Exactly singular input must give FALSE when every intermediate of the determinant is exactly representable in double; when it is not (products of two entries "
+        "need more than 53 bits) the library's verdict is counted and listed under observations, not judged: it does return TRUE with a meaningless matrix for some exactly "
+        "singular 16.16 matrices with large, nearly proportional rows.  NaN/inf inputs are not generated.  pixman_f_transform_invert / point / point_3d / bounds on 16.16 matrices seen as doubles: the rational model must "
+        "reproduce literally the harness's exact verdict (reduced fractions / integer box); the library is judged against the exact values by the oracle (f_invert: the same "
+        "bound in relative form; f_point: 16 ulp of the term magnitudes when w is free of cancellation; f_bounds: floor/ceil of the exact corner, one edge unit of slack only when "
+        "the quotient lies within 2^-51 relative of an integer, corners up to 30000).  f_from / f_to: long double oracle only (entryToFixed theorems for the algorithm)",
         "signed overflow that is undefined behaviour in C (negation of INT32_MIN inside the void pixman_transform_init_rotate, within_epsilon differences) is modelled as the "
         "two's complement wrap the compiled library shows",
         "int64 sums inside pixman_transform_point_31_16*/multiply are modelled unbounded; Props.C11.tmp_in_int64/mulEntry_in_int64 prove they fit",
@@ -226,6 +282,17 @@ def replay(ctx, path):
     log(f"request:        {req}\nimplementation: {a}\nmodel:          {m}")
     findings = []
     op = req.split(" ", 1)[0]
+    if op == "invert":
+        a, _, aq = a.partition(" | ")
+        m, _, mq = m.partition(" | ")
+        if aq != mq:
+            findings.append(("disagree", op, req, aq, mq, "rational model (Model/MatrixQ.lean) and the exact-arithmetic oracle differ [invert, rational]"))
+        if m == "UNDEF":
+            m = a
+    if op in FLOAT_RATIONAL:
+        aq = a.partition(" | ")[2]
+        if aq != m:
+            findings.append(("disagree", op, req, aq, m, f"rational model (Model/MatrixQ.lean) and the exact-arithmetic oracle differ [{op}, rational]"))
     if op not in FLOAT_OPS and a != m:
         findings.append(("disagree", op, req, a, m, "model and implementation differ"))
     for ol in orc.read_text().splitlines():
